@@ -202,6 +202,11 @@ def directed_pairs(rng) -> list[dict]:
     fold_keep = H18 + "agraph (float[2] x) => (float[2] y)\n{\n  a = Abs (x)\n  y = Neg (a)\n}\n"
     unsq_plain = H18 + "agraph (float[3] x) => (float[?,?,?] y)\n<int64[1] a1 = {0}, int64[1] a2 = {1}>\n{\n  a = Unsqueeze (x, a1)\n  y = Unsqueeze (a, a2)\n}\n"
     unsq_named = H18 + "agraph (float[3] val_1) => (float[?,?,?] val_3)\n<int64[1] a1 = {0}, int64[1] val_2 = {1}>\n{\n  val_4 = Unsqueeze (val_1, a1)\n  val_3 = Unsqueeze (val_4, val_2)\n}\n"
+    dft19 = '<ir_version: 9, opset_import: ["" : 19]>\nagraph (float[1,4,4,1] x) => (float[?,?,?,?] y)\n{\n  t0 = Identity (x)\n  t1 = DFT <axis = 1> (t0)\n  y = Identity (t1)\n}\n'
+    dft19n = '<ir_version: 9, opset_import: ["" : 19]>\nagraph (float[1,4,4,1] x) => (float[?,?,?,?] y)\n{\n  val_0 = Identity (x)\n  val_1 = DFT <axis = 2> (val_0)\n  y = Identity (val_1)\n}\n'
+    grid19 = '<ir_version: 9, opset_import: ["" : 19]>\nagraph (float[1,1,2,2] x, float[1,2,2,2] g) => (float[?,?,?,?] y)\n{\n  t0 = GridSample <mode = "bilinear"> (x, g)\n  y = Relu (t0)\n}\n'
+    gn20 = '<ir_version: 9, opset_import: ["" : 20]>\nagraph (float[1,4,2,2] x) => (float[?,?,?,?] y)\n<float[2] sc = {1,2}, float[2] bi = {0,1}>\n{\n  t0 = GroupNormalization <num_groups = 2> (x, sc, bi)\n  y = Relu (t0)\n}\n'
+    plain19 = '<ir_version: 9, opset_import: ["" : 19]>\nagraph (float[3] x) => (float[3] y)\n{\n  a = Relu (x)\n  y = Neg (a)\n}\n'
     fold_sym = H18 + "agraph (float[N,4] x) => (int64[2] y)\n{\n  s = Shape (x)\n  y = Identity (s)\n}\n"
     fold_sym2 = H18 + "agraph (float[B,S,8] x) => (int64[1] y)\n<int64[1] st = {0}, int64[1] en = {1}>\n{\n  s = Shape (x)\n  y = Slice (s, st, en)\n}\n"
     ln1, _ = G.m_layer_norm(__import__("random").Random(5))
@@ -249,6 +254,12 @@ def directed_pairs(rng) -> list[dict]:
          "target": M("rewrite", unsq_plain, rules="default_pass")},
         {"tag": "rewrite_pass:fresh val_<n> names against the model's own names", "history": [M("rewrite", unsq_plain, rules="default_pass")],
          "target": M("rewrite", unsq_named, rules="default_pass")},
+        {"tag": "convert_pass:same ConvertVersionPass object, adapter-created value names (GroupNormalization then DFT, ->21)",
+         "history": [M("convert_pass", gn20, target=21)], "target": M("convert_pass", dft19, target=21)},
+        {"tag": "convert_pass:same ConvertVersionPass object (DFT then DFT with val_<n> names, ->20)",
+         "history": [M("convert_pass", dft19, target=20), M("convert_pass", grid19, target=20)], "target": M("convert_pass", dft19n, target=20)},
+        {"tag": "convert_pass:unmodified model after a modified one (->20)",
+         "history": [M("convert_pass", dft19, target=20)], "target": M("convert_pass", plain19, target=20)},
         {"tag": "rewrite_pass:shared RewritePass", "history": [M("rewrite", rr_ok, rules="default_pass")], "target": M("rewrite", fold_keep, rules="default_pass")},
         {"tag": "opset:same domain other version", "history": [{"k": "opset", "domain": "my.dom", "version": 1}],
          "target": {"k": "script", "name": "dt", "src": "@script(MYOP, default_opset=op)\ndef dt(x: FLOAT[3]):\n    return op.Abs(x)\n",
@@ -960,7 +971,7 @@ def main(run: core.Run) -> None:
             "ctrl_sites", "ctrl_sites_iteration_unsorted", "uniq_calls", "as_function_rewrites", "kwseq_calls_on_siblings_of_target",
             "kwseq_calls_on_target", "ndarray_scripts_inplace_touching_body", "evalctx", "globals_fingerprint_histories",
             "true_fresh_processes", "history_failing_ops", "script_override_calls", "global_mutations_checked", "kw_model_lines",
-            "fresh_value_names_created", "fresh_value_names_skipping_existing", "header_cases", "header_graph_without_std_opset", "header_std_from_function", "header_with_opset_version_kw", "header_std_from_kw_or_latest", "header_std_from_opset_version_kw",
+            "fresh_value_names_created", "fresh_value_names_skipping_existing", "op:model:convert_pass", "header_cases", "header_graph_without_std_opset", "header_std_from_function", "header_with_opset_version_kw", "header_std_from_kw_or_latest", "header_std_from_opset_version_kw",
         ]
         zero = [k for k in required if not st[k]]
         if not (st["multi_domain_new_2"] + st["multi_domain_new_3"] + st["multi_domain_new_4"]):
